@@ -34,10 +34,10 @@ func pattern(bc barcode.Barcode, cs barcode.ColorScheme) ([][]bool, error) {
 	for y := range out {
 		row := make([]bool, b.Dx())
 		for x := range row {
-			switch px := bc.At(x, y); px {
-			case cs.Foreground:
+			switch px := bc.At(x, y); {
+			case sameValue(px, cs.Foreground):
 				row[x] = true
-			case cs.Background:
+			case sameValue(px, cs.Background):
 			default:
 				return nil, fmt.Errorf("pixel (%d,%d) is %#v, neither foreground %#v nor background %#v of the scheme in force", x, y, px, cs.Foreground, cs.Background)
 			}
@@ -82,14 +82,14 @@ func checkRender(t TB, c EncSpec, bc barcode.Barcode, cs barcode.ColorScheme, wh
 	if aerr != nil {
 		failf(t, P, K, c, "%s: %v", what, aerr)
 	}
-	if m := bc.ColorModel(); m != cs.Model {
+	if m := bc.ColorModel(); !sameValue(m, cs.Model) {
 		failf(t, P, K, c, "%s: ColorModel() is not the model of the scheme in force", what)
 	}
 	col, ok := bc.(barcode.BarcodeColor)
 	if !ok {
 		failf(t, P, K, c, "%s: barcode does not expose ColorScheme()", what)
 	}
-	if got := col.ColorScheme(); got != cs {
+	if got := col.ColorScheme(); !sameValue(got.Model, cs.Model) || !sameValue(got.Foreground, cs.Foreground) || !sameValue(got.Background, cs.Background) {
 		failf(t, P, K, c, "%s: ColorScheme() reports %#v, the scheme in force is %#v", what, got, cs)
 	}
 	md := bc.Metadata()
@@ -305,6 +305,15 @@ func TestC11Sweep(t *testing.T) {
 	}
 	schemes = append(schemes, &SchemeSpec{Model: "gray", FG: ColorSpec{Model: "rgba", V: [4]uint16{200, 0, 0, 255}}, BG: ColorSpec{Model: "nrgba", V: [4]uint16{255, 255, 0, 128}}},
 		&SchemeSpec{Model: "rgba", FG: ColorSpec{Model: "nrgba", V: [4]uint16{10, 200, 30, 128}}, BG: ColorSpec{Model: "gray16", V: [4]uint16{60000, 0, 0, 0}}})
+	// colour types / models outside image/color's comparable structs: a caller-defined value type, *image.Uniform, a
+	// slice-based colour (not comparable: == panics) and color.Palette as the model (a slice as well: cannot be compared,
+	// cannot be a map key)
+	schemes = append(schemes,
+		&SchemeSpec{Model: "rgba", FG: ColorSpec{Model: "custom", V: [4]uint16{0, 0, 0, 65535}}, BG: ColorSpec{Model: "uniform", V: [4]uint16{255, 255, 255, 255}}},
+		&SchemeSpec{Model: "gray16", FG: ColorSpec{Model: "slice", V: [4]uint16{0, 0, 30000, 65535}}, BG: ColorSpec{Model: "slice", V: [4]uint16{65535, 65535, 65535, 65535}}},
+		&SchemeSpec{Model: "palette", FG: ColorSpec{Model: "rgba", V: [4]uint16{0, 0, 0, 255}}, BG: ColorSpec{Model: "rgba", V: [4]uint16{255, 255, 255, 255}}},
+		&SchemeSpec{Model: "palette", FG: ColorSpec{Model: "gray16", V: [4]uint16{4000}}, BG: ColorSpec{Model: "nrgba", V: [4]uint16{0, 0, 250, 200}}},
+		&SchemeSpec{Model: "palette", FG: ColorSpec{Model: "slice", V: [4]uint16{65535, 0, 0, 65535}}, BG: ColorSpec{Model: "slice", V: [4]uint16{0, 0, 0, 0}}})
 	base := []EncSpec{
 		{Fam: "qr", Content: BStr("hello world"), A: 3, B: 3}, {Fam: "qr", Content: BStr("0123456789"), A: 0, B: 1},
 		{Fam: "datamatrix", Content: BStr("Data Matrix")}, {Fam: "aztec", Content: BStr("Aztec Code 123"), A: 33},
